@@ -1,5 +1,6 @@
 import BlobfinderModel.Properties.C04
 import BlobfinderModel.Properties.C16
+import BlobfinderModel.Proofs.Transpose
 import Mathlib.Algebra.BigOperators.Group.Finset.Basic
 import Mathlib.Algebra.BigOperators.Intervals
 import Mathlib.Algebra.Order.BigOperators.Group.Finset
@@ -178,6 +179,101 @@ theorem com_symmetric (wgt : ℤ → ℤ → ℚ) (r : ℕ)
 /-- hence the refined position equals the integer centre exactly -/
 theorem refined_exact (c : ℤ) (r : ℕ) : Gen.refined_coord c (r : ℚ) (r : ℤ) = (c : ℚ) := by
   rw [C03.refined_formula]; push_cast; ring
+
+/-! ### composed: a symmetric, uniquely peaked window map is evaluated exactly -/
+
+/-- **Exact location at the model level.**  If a correlation map has a unique maximiser `q` at least
+2 px away from the border of the map and is point-symmetric about `q` on the 5×5 neighbourhood
+(what `corr_symmetric` gives for a symmetric mask and a symmetric disk, `matched_disk_max` for the
+maximum), then the evaluation kernels report integer centre `q` **and refined position exactly `q`**
+— for every map size. -/
+theorem evaluate_symmetric_exact (corr : ℤ → ℤ → ℚ) (n m : ℕ) (hn : 0 < n) (hm : 0 < m) (qy qx : ℤ)
+    (hqy : 2 ≤ qy ∧ qy + 2 < n) (hqx : 2 ≤ qx ∧ qx + 2 < m)
+    (hmaxq : IsMaxAt corr n m qy qx)
+    (huniq : ∀ y x y' x' : ℤ, IsMaxAt corr n m y x → IsMaxAt corr n m y' x' → y = y' ∧ x = x')
+    (hsym : ∀ dy dx : ℤ, -2 ≤ dy → dy ≤ 2 → -2 ≤ dx → dx ≤ 2 → corr (qy + dy) (qx + dx) = corr (qy - dy) (qx - dx)) :
+    (evaluate corr n m).cy = qy ∧ (evaluate corr n m).cx = qx ∧
+    (evaluate corr n m).ry = (qy : ℚ) ∧ (evaluate corr n m).rx = (qx : ℚ) := by
+  obtain ⟨ecy, ecx⟩ := huniq _ _ _ _ (evaluate_isMaxAt corr n m hn hm) hmaxq
+  have hry : (evaluate corr n m).ry = (refineCenter corr n m (evaluate corr n m).cy (evaluate corr n m).cx Gen.refine_radius).1 := rfl
+  have hrx : (evaluate corr n m).rx = (refineCenter corr n m (evaluate corr n m).cy (evaluate corr n m).cx Gen.refine_radius).2 := rfl
+  rw [hry, hrx, ecy, ecx]
+  refine ⟨rfl, rfl, ?_⟩
+  -- the refinement around q with the full radius 2
+  unfold refineCenter
+  simp only []
+  have hr : Gen.refine_r Gen.refine_radius qy qx n m = 2 := by
+    unfold Gen.refine_r Gen.refine_radius; omega
+  rw [hr]
+  have hg : ¬ (Gen.refine_guard 2 = true) := by unfold Gen.refine_guard; decide
+  rw [if_neg hg]
+  have hlo_y : Gen.cut_lo qy 2 = qy - 2 := rfl
+  have hlo_x : Gen.cut_lo qx 2 = qx - 2 := rfl
+  have hny : Gen.cut_hi qy 2 - Gen.cut_lo qy 2 = ((2 * 2 + 1 : ℕ) : ℤ) := by unfold Gen.cut_hi Gen.cut_lo; push_cast; ring
+  have hnx : Gen.cut_hi qx 2 - Gen.cut_lo qx 2 = ((2 * 2 + 1 : ℕ) : ℤ) := by unfold Gen.cut_hi Gen.cut_lo; push_cast; ring
+  rw [hny, hnx, hlo_y, hlo_x]
+  set cut : ℤ → ℤ → ℚ := fun y x => corr (qy - 2 + y) (qx - 2 + x) with hcut
+  set mn := minList (flat cut ((2 * 2 + 1 : ℕ) : ℤ) ((2 * 2 + 1 : ℕ) : ℤ)) with hmn
+  -- symmetry of the min-subtracted cut-out
+  have hsymw : ∀ y x : ℕ, y ≤ 2 * 2 → x ≤ 2 * 2 →
+      (fun y x => cut y x - mn) (y : ℤ) (x : ℤ) = (fun y x => cut y x - mn) ((2 * 2 - y : ℕ) : ℤ) ((2 * 2 - x : ℕ) : ℤ) := by
+    intro y x hy hx
+    simp only [hcut]
+    have e1 : qy - 2 + (y : ℤ) = qy + ((y : ℤ) - 2) := by ring
+    have e2 : qx - 2 + (x : ℤ) = qx + ((x : ℤ) - 2) := by ring
+    have e3 : qy - 2 + ((2 * 2 - y : ℕ) : ℤ) = qy - ((y : ℤ) - 2) := by
+      rw [Nat.cast_sub hy]; push_cast; ring
+    have e4 : qx - 2 + ((2 * 2 - x : ℕ) : ℤ) = qx - ((x : ℤ) - 2) := by
+      rw [Nat.cast_sub hx]; push_cast; ring
+    rw [e1, e2, e3, e4, hsym ((y : ℤ) - 2) ((x : ℤ) - 2) (by omega) (by omega) (by omega) (by omega)]
+  -- positive total: the corner of the cut-out is strictly below the unique maximum
+  have hlt : cut 0 0 < cut 2 2 := by
+    simp only [hcut]
+    have e1 : qy - 2 + 2 = qy := by ring
+    have e2 : qx - 2 + 2 = qx := by ring
+    rw [e1, e2, add_zero, add_zero]
+    have hle := hmaxq.2.2 (qy - 2) (qx - 2) (by omega) (by omega) (by omega) (by omega)
+    rcases lt_or_eq_of_le hle with h | h
+    · exact h
+    · exfalso
+      have hmax2 : IsMaxAt corr n m (qy - 2) (qx - 2) :=
+        ⟨⟨by omega, by omega⟩, ⟨by omega, by omega⟩, fun a b ha0 ha1 hb0 hb1 => by
+          rw [h]; exact hmaxq.2.2 a b ha0 ha1 hb0 hb1⟩
+      have := (huniq _ _ _ _ hmax2 hmaxq).1
+      omega
+  have hpos := C04.com_total_pos cut ((2 * 2 + 1 : ℕ) : ℤ) ((2 * 2 + 1 : ℕ) : ℤ) 2 2 0 0
+    ⟨⟨by norm_num, by norm_num⟩, ⟨by norm_num, by norm_num⟩⟩ ⟨⟨by norm_num, by norm_num⟩, ⟨by norm_num, by norm_num⟩⟩ hlt
+  obtain ⟨c1, c2⟩ := com_symmetric (fun y x => cut y x - mn) 2 hsymw (ne_of_gt hpos)
+  rw [c1, c2]
+  constructor
+  · have := refined_exact qy 2; push_cast at this ⊢; exact this
+  · have := refined_exact qx 2; push_cast at this ⊢; exact this
+
+/-- **the same through the composed crop-based pipeline**: if the window's correlation map has its
+unique maximiser at window position `w` (≥ 2 px inside) and is point-symmetric about it on the 5×5
+neighbourhood, `fastPeak` reports centre `start − c + w` and the refined position equals it exactly -/
+theorem fastPeak_symmetric_exact (L : ℚ → ℚ) (mask frame : ℤ → ℤ → ℚ) (fy fx : ℤ) (c : ℕ) (hc : 0 < c)
+    (start : ℤ × ℤ) (wy wx : ℤ) (hwy : 2 ≤ wy ∧ wy + 2 < 2 * c) (hwx : 2 ≤ wx ∧ wx + 2 < 2 * c)
+    (hmaxq : IsMaxAt (fastCorr L mask frame fy fx c start) (2 * c : ℕ) (2 * c : ℕ) wy wx)
+    (huniq : ∀ y x y' x' : ℤ, IsMaxAt (fastCorr L mask frame fy fx c start) (2 * c : ℕ) (2 * c : ℕ) y x →
+      IsMaxAt (fastCorr L mask frame fy fx c start) (2 * c : ℕ) (2 * c : ℕ) y' x' → y = y' ∧ x = x')
+    (hsym : ∀ dy dx : ℤ, -2 ≤ dy → dy ≤ 2 → -2 ≤ dx → dx ≤ 2 →
+      fastCorr L mask frame fy fx c start (wy + dy) (wx + dx) = fastCorr L mask frame fy fx c start (wy - dy) (wx - dx)) :
+    let e := fastPeak L mask frame fy fx c start
+    e.cy = start.1 - c + wy ∧ e.cx = start.2 - c + wx ∧ e.ry = ((start.1 - c + wy : ℤ) : ℚ) ∧ e.rx = ((start.2 - c + wx : ℤ) : ℚ) := by
+  intro e
+  have hcast : (2 * (c : ℤ)) = ((2 * c : ℕ) : ℤ) := by push_cast; ring
+  have hpos : 0 < 2 * c := by omega
+  have he : e = reanchor (evaluate (fastCorr L mask frame fy fx c start) (2 * c : ℕ) (2 * c : ℕ)) start.1 start.2 c := by
+    show reanchor (evaluate (fastCorr L mask frame fy fx c start) (2 * (c : ℤ)) (2 * (c : ℤ))) start.1 start.2 c = _
+    rw [hcast]
+  obtain ⟨h1, h2, h3, h4⟩ := evaluate_symmetric_exact (fastCorr L mask frame fy fx c start) (2 * c) (2 * c) hpos hpos wy wx
+    (by push_cast; omega) (by push_cast; omega) hmaxq huniq hsym
+  rw [he]
+  unfold reanchor Gen.shift
+  simp only []
+  rw [h1, h2, h3, h4]
+  refine ⟨by ring, by ring, by push_cast; ring, by push_cast; ring⟩
 
 /-- the upsampling step uses the correlation-map centre `ceil(n/2)`, which is exactly the offset
 that undoes the `ifftshift` for even *and odd* sizes: map index `j` ↔ signed shift `j − ceil(n/2)` -/
